@@ -38,6 +38,7 @@ struct Ent
 struct FileSpec
 {
     std::vector<Ent> c, u;
+    std::vector<int> parent; // encapsulation forest over the components of this file: parent[k] = index of the encapsulating component, -1 = top level
     FileStatus st = FS_OK;
     int trunc = -1; // FS_NOTXML: prefix class 0..5
 };
@@ -49,12 +50,14 @@ static const int COMP = 0, UNITS = 1;
 struct Node
 {
     int f, kind, k;
+    bool child = false; // reached from its encapsulating component (not part of the identity)
     bool operator==(const Node &o) const { return f == o.f && kind == o.kind && k == o.k; }
     bool operator<(const Node &o) const { return std::tie(f, kind, k) < std::tie(o.f, o.kind, o.k); }
 };
 static const Ent &entOf(const Graph &g, Node n) { return n.kind == COMP ? g.f[n.f].c[n.k] : g.f[n.f].u[n.k]; }
 static Ent &entOf(Graph &g, Node n) { return n.kind == COMP ? g.f[n.f].c[n.k] : g.f[n.f].u[n.k]; }
 static std::string fileName(int j) { return "f" + std::to_string(j) + ".cellml"; }
+static int parentOf(const FileSpec &fs, int k) { return k < int(fs.parent.size()) ? fs.parent[k] : -1; }
 static std::string entName(int kind, int k) { return (kind == COMP ? "c" : "u") + std::to_string(k); }
 
 // ------------------------------------------------------------------------------------------- shapes and index decoding
@@ -65,6 +68,23 @@ struct Shape
     int maxImports = -1;     // restriction on the number of import entities (-1: none)
     bool childOpt = true;    // concrete components may carry an encapsulated child that uses local units
     bool fixedLocal = false; // concrete entities take one fixed pattern: c_k uses u_k, u_i references u_{i+1}, the last units are base
+    bool nest = false;       // additionally every encapsulation forest over the components of every file (imports nested under imports / under concrete components)
+    std::vector<std::vector<std::vector<int>>> forests; // per file: all parent vectors
+    static std::vector<std::vector<int>> allForests(int C)
+    {
+        std::vector<std::vector<int>> out;
+        std::vector<int> p(C, -1);
+        std::function<void(int)> go = [&](int i) {
+            if (i == C) {
+                for (int a = 0; a < C; ++a) { int x = a, steps = 0; while (x >= 0 && steps++ <= C) x = p[x]; if (x >= 0) return; } // cyclic
+                out.push_back(p);
+                return;
+            }
+            for (int v = -1; v < C; ++v) if (v != i) { p[i] = v; go(i + 1); }
+        };
+        go(0);
+        return out;
+    }
     // derived
     struct Slot { int f, kind, k, nConc, nImp; };
     std::vector<Slot> slots;
@@ -96,9 +116,11 @@ struct Shape
             for (int k = 0; k < nc[f]; ++k) slots.push_back({f, COMP, k, fixedLocal ? 1 : 1 + nu[f] * (childOpt ? 2 : 1), int(ctargets.size())});
             for (int k = 0; k < nu[f]; ++k) slots.push_back({f, UNITS, k, fixedLocal ? 1 : int(unitsLocalOptions(nu[f], k).size()), int(utargets.size())});
         }
+        for (int f = 0; f < files(); ++f) forests.push_back(nest ? allForests(nc[f]) : std::vector<std::vector<int>> {std::vector<int>(nc[f], -1)});
         if (maxImports < 0) {
             total = 1;
             for (auto &s : slots) total *= uint64_t(s.nConc + s.nImp);
+            for (auto &fo : forests) total *= uint64_t(fo.size());
         } else {
             size_t n = slots.size();
             for (uint32_t m = 0; m < (1u << n); ++m) {
@@ -150,6 +172,7 @@ struct Shape
             }
             (s.kind == COMP ? g.f[s.f].c : g.f[s.f].u)[s.k] = e;
         }
+        for (int f = 0; f < files(); ++f) g.f[f].parent = restricted ? forests[f][0] : forests[f][r.take(forests[f].size())];
         return g;
     }
 };
@@ -185,13 +208,31 @@ static std::string render(const Graph &g, int f, FileStatus variant = FS_OK)
             d += "  </units>\n";
         }
     }
+    // encapsulation: the forest over the components of this file plus the private child of a "child uses units" component
     bool anyEnc = false;
-    for (int k = 0; k < int(fs.c.size()); ++k) {
-        const Ent &e = fs.c[k];
-        if (e.removed || e.imp || e.local <= U) continue;
-        if (!anyEnc) d += variant == FS_V11 ? "  <group>\n    <relationship_ref relationship=\"encapsulation\"/>\n" : "  <encapsulation>\n";
-        anyEnc = true;
-        d += "    <component_ref component=\"" + entName(COMP, k) + "\">\n      <component_ref component=\"" + entName(COMP, k) + "_child\"/>\n    </component_ref>\n";
+    {
+        int C = int(fs.c.size());
+        std::function<bool(int)> hasKids = [&](int k) {
+            const Ent &e = fs.c[k];
+            if (!e.imp && e.local > U) return true;
+            for (int j = 0; j < C; ++j) if (!fs.c[j].removed && parentOf(fs, j) == k) return true;
+            return false;
+        };
+        std::function<void(int, int)> emit = [&](int k, int depth) {
+            std::string ind(size_t(4 + 2 * depth), ' ');
+            if (!hasKids(k)) { d += ind + "<component_ref component=\"" + entName(COMP, k) + "\"/>\n"; return; }
+            d += ind + "<component_ref component=\"" + entName(COMP, k) + "\">\n";
+            const Ent &e = fs.c[k];
+            if (!e.imp && e.local > U) d += ind + "  <component_ref component=\"" + entName(COMP, k) + "_child\"/>\n";
+            for (int j = 0; j < C; ++j) if (!fs.c[j].removed && parentOf(fs, j) == k) emit(j, depth + 1);
+            d += ind + "</component_ref>\n";
+        };
+        for (int k = 0; k < C; ++k) {
+            if (fs.c[k].removed || parentOf(fs, k) >= 0 || !hasKids(k)) continue;
+            if (!anyEnc) d += variant == FS_V11 ? "  <group>\n    <relationship_ref relationship=\"encapsulation\"/>\n" : "  <encapsulation>\n";
+            anyEnc = true;
+            emit(k, 0);
+        }
     }
     if (anyEnc) d += variant == FS_V11 ? "  </group>\n" : "  </encapsulation>\n";
     if (variant == FS_PARSEERR) d += "  <bogus/>\n"; // an element the 2.0 parser reports (not an XML error)
@@ -233,7 +274,7 @@ static std::string pathShape(const Graph &g, const std::vector<Node> &path)
     std::string s;
     for (size_t i = 0; i < path.size(); ++i) {
         const Ent &e = entOf(g, path[i]);
-        if (i) s += ">";
+        if (i) s += path[i].child ? "/" : ">"; // "/" = encapsulated child of the previous component
         s += path[i].kind == COMP ? "C" : "U";
         s += e.imp ? "i" : "c";
         if (!e.imp && path[i].kind == COMP && e.local > int(g.f[path[i].f].u.size())) s += "k"; // units used by an encapsulated child
@@ -273,6 +314,10 @@ struct Ref
     {
         const Ent &e = entOf(g, n);
         int U = int(g.f[n.f].u.size());
+        if (n.kind == COMP) { // the components it encapsulates come with it, whether it is an import or not
+            const FileSpec &fs = g.f[n.f];
+            for (int j = 0; j < int(fs.c.size()); ++j) if (!fs.c[j].removed && parentOf(fs, j) == n.k) { Node t {n.f, COMP, j}; t.child = true; out.push_back(t); }
+        }
         if (e.imp) {
             if (needed) needed->insert(e.tf);
             Node t {e.tf, n.kind, e.tk};
@@ -502,8 +547,32 @@ __attribute__((no_sanitize("address", "undefined"))) static void handler(int, si
     dieUnguarded();
 }
 static void loadSymbols();
+// A step that does not return: the CPU-time timer writes the prepared record and ends this worker (the supervisor resumes after the case).
+static char hangRecord[1536];
+static volatile size_t hangRecordLen = 0;
+static void hangHandler(int)
+{
+    if (hangRecordLen && write(1, hangRecord, hangRecordLen) < 0) {}
+    static const char msg[] = "C07: a library call did not return within its CPU-time budget; the record is on stdout\n";
+    if (write(2, msg, sizeof msg - 1) < 0) {}
+    _exit(77);
+}
+static void armHang(int seconds)
+{
+    struct itimerval it;
+    memset(&it, 0, sizeof it);
+    it.it_value.tv_sec = seconds;
+    setitimer(ITIMER_VIRTUAL, &it, nullptr);
+}
 static void install()
 {
+    {
+        struct sigaction sa;
+        memset(&sa, 0, sizeof sa);
+        sa.sa_handler = hangHandler;
+        sigemptyset(&sa.sa_mask);
+        sigaction(SIGVTALRM, &sa, nullptr);
+    }
     loadSymbols(); // before any crash: the handler needs the text range
     stack_t ss;
     ss.ss_sp = altstack;
@@ -690,7 +759,7 @@ static ModelPtr modelOfEntity(const ParentedEntityPtr &e)
 // Where the library stopped looking, read off the shape of the dependency path to the problem it did not see.
 static std::string blindSpot(const std::string &path)
 {
-    if (path.find("Cck>") != std::string::npos) return "units-used-by-an-encapsulated-child-of-an-imported-component";
+    if (path.find("Cck>") != std::string::npos || path.find("/Cc>U") != std::string::npos || path.find("/Cck>U") != std::string::npos) return "units-used-by-an-encapsulated-child-of-an-imported-component";
     // fetchUnits does not look into concrete units reached from a concrete component, nor into the concrete children of concrete units
     if (path.find("Cc>Uc>") != std::string::npos || path.find("Uc>Uc") != std::string::npos) return "units-referenced-by-concrete-units-that-are-themselves-reached-through-a-concrete-entity";
     return "";
@@ -704,6 +773,8 @@ static void report(Ctx &c, const std::string &sig, json detail = json::object())
     if (seen[sig]++ < 3) c.violation(sig, detail);
     else { ++c.violations; c.count("repeats_not_printed"); c.count("n:" + sig); }
 }
+
+static const int HANG_SECONDS = 2; // CPU time; an ordinary call takes well under 10 ms
 
 struct Session
 {
@@ -730,12 +801,21 @@ struct Session
     {
         if (progress) *progress = id;
         if (!guarded) { f(); return true; }
+        {
+            int n = snprintf(guard::hangRecord, sizeof guard::hangRecord,
+                             "{\"v\":1,\"family\":\"%s\",\"i\":%llu,\"sig\":\"step=%s:hang:%s\",\"detail\":{\"mode\":\"%s\",\"situation\":\"%s\",\"what\":\"the call did not return within %d s of CPU time\"}}\n",
+                             c.family.c_str(), (unsigned long long)c.index, name, inputClass.c_str(), mode.tag().c_str(), situation.c_str(), HANG_SECONDS);
+            guard::hangRecordLen = n > 0 && size_t(n) < sizeof guard::hangRecord ? size_t(n) : 0;
+        }
         if (sigsetjmp(guard::jb, 1) == 0) {
             guard::armed = 1;
+            guard::armHang(HANG_SECONDS);
             f();
+            guard::armHang(0);
             guard::armed = 0;
             return true;
         }
+        guard::armHang(0);
         // the step crashed and the guard brought us back
         std::string cs = guard::describe();
         crashedSteps.insert(name);
@@ -813,7 +893,12 @@ struct Session
             for (auto &m : ms) {
                 if (!m) continue;
                 for (size_t i = 0; i < m->unitsCount(); ++i) if (m->units(i)->isImport() && m->units(i)->importSource() == src) return byName(m, UNITS, m->units(i)->name());
-                for (size_t i = 0; i < m->componentCount(); ++i) if (m->component(i)->isImport() && m->component(i)->importSource() == src) return byName(m, COMP, m->component(i)->name());
+                std::vector<ComponentPtr> todo;
+                for (size_t i = 0; i < m->componentCount(); ++i) todo.push_back(m->component(i));
+                for (size_t q = 0; q < todo.size() && q < 256; ++q) {
+                    if (todo[q]->isImport() && todo[q]->importSource() == src) return byName(m, COMP, todo[q]->name());
+                    for (size_t i = 0; i < todo[q]->componentCount(); ++i) todo.push_back(todo[q]->component(i));
+                }
             }
         }
         return std::nullopt;
@@ -1053,6 +1138,7 @@ static json graphJson(const Graph &g)
             else if (e.imp) s = "import " + fileName(e.tf) + "#" + entName(kind, e.tk);
             else if (kind == COMP) { int U = int(g.f[f].u.size()); s = e.local == 0 ? "concrete" : e.local <= U ? "concrete, uses " + entName(UNITS, e.local - 1) : "concrete, encapsulated child uses " + entName(UNITS, e.local - U - 1); }
             else { s = "concrete"; for (int b = 0; b < 8; ++b) if (e.local & (1 << b)) s += " ->" + entName(UNITS, b); }
+            if (kind == COMP && parentOf(g.f[f], k) >= 0) s += " [encapsulated by " + entName(COMP, parentOf(g.f[f], k)) + "]";
             ents[entName(kind, k)] = s;
         };
         for (size_t k = 0; k < g.f[f].c.size(); ++k) one(COMP, int(k), g.f[f].c[k]);
@@ -1154,6 +1240,7 @@ static std::vector<Fault> faultsOf(const Graph &g0)
             }
             Fault f {"removed-" + role, g0, false, false};
             entOf(f.g, n).removed = true;
+            if (kind == COMP) for (auto &pp : f.g.f[j].parent) if (pp == k) pp = -1; // what it encapsulated moves to the top level
             out.push_back(f);
         };
         for (int k = 0; k < int(g0.f[j].c.size()); ++k) removal(COMP, k);
@@ -1218,11 +1305,11 @@ static void runFaults(const std::string &shape, uint64_t i, Ctx &c)
 // ------------------------------------------------------------------------------------------- repair sequences
 // resolve(fault) -> [flatten] -> repair -> {same importer as it is, same importer after removeAllModels(), new importer} x {same root object, root parsed again}
 // -> resolve -> flatten
-static void repairSequence(Ctx &c, const Graph &g0, const Verdict &v0, const Fault &f, Mode mode, int variant, bool freshRoot, bool flattenBetween, bool reuseObjects)
+static void repairSequence(Ctx &c, const Graph &g0, const Verdict &v0, const Fault &f, Mode mode, int variant, bool freshRoot, bool flattenBetween, bool reuseObjects, bool keepAlive = false)
 {
-    static const char *VAR[] = {"same-importer-not-cleared", "same-importer-after-removeAllModels", "new-importer"};
+    static const char *VAR[] = {"same-importer-not-cleared", "same-importer-after-removeAllModels", "new-importer", "same-importer-after-clearImports-and-removeAllModels"};
     Verdict vf = judge(f.g, !mode.strict);
-    std::string situation = f.name + ":repair=" + VAR[variant] + (freshRoot ? "+root-parsed-again" : "+same-root-object") + (reuseObjects ? "+library-objects-reused" : "");
+    std::string situation = f.name + ":repair=" + VAR[variant] + (freshRoot ? "+root-parsed-again" : "+same-root-object") + (reuseObjects ? "+library-objects-reused" : "") + (keepAlive ? "+old-importer-and-models-still-alive" : "");
     auto textsF = textsOf(f.g), texts0 = textsOf(g0);
     json detail = {{"graph", graphJson(g0)}, {"faulted", graphJson(f.g)}, {"mode", mode.tag()}, {"situation", situation},
                    {"ordinary_units_cycle_reachable", vf.crashProne}, {"import_cycle_reachable", vf.impCycleReachable}};
@@ -1241,8 +1328,17 @@ static void repairSequence(Ctx &c, const Graph &g0, const Verdict &v0, const Fau
         // repair
         if (mode.disk) writeFiles(texts0);
         std::vector<ModelPtr> old = s.libModels;
+        // an application may well keep the first importer and the models it loaded (for other work) while it resolves afresh
+        std::vector<ModelPtr> stillAlive;
+        ImporterPtr firstImporter;
+        if (keepAlive) {
+            firstImporter = s.imp;
+            for (size_t i = 0; i < s.imp->libraryCount() && i < 64; ++i) stillAlive.push_back(s.imp->library(i));
+            for (auto &m : old) stillAlive.push_back(m);
+        }
         if (variant == 2) s.newImporter();
-        if (variant == 1) {
+        if (variant == 3) { s.imp->clearImports(s.root); cc.logger(s.imp, "importer"); }
+        if (variant == 1 || variant == 3) {
             s.imp->removeAllModels();
             cc.logger(s.imp, "importer");
             if (s.imp->libraryCount() != 0) report(cc, s.sig("library:not-empty-after-removeAllModels"), detail);
@@ -1276,6 +1372,8 @@ static void repairSequence(Ctx &c, const Graph &g0, const Verdict &v0, const Fau
         if (judged) s.inputClass = v0.crashProne ? "ordinary-units-cycle-reachable" : v0.impCycleReachable ? "import-cycle-reachable" : v0.fileCycle ? "files-import-from-each-other" : "acyclic-input"; // what a fresh resolution sees from here on (an uncleared library still holds the faulted models)
         if (freshRoot && !s.parseRoot(render(g0, 0))) return;
         int r2 = s.resolve(g0, v0, texts0, "repaired", judged);
+        stillAlive.clear();
+        firstImporter.reset();
         if (!judged) cc.outcome(std::string("not-judged:") + VAR[variant] + (reuseObjects ? "+objects-reused" : "") + ":" + f.name.substr(0, f.name.find(':')) + (r2 == 1 ? ":true" : ":false"));
         if (judged) s.flatten(v0, r2 == 1 ? 1 : (r2 == 0 || r2 == 2) ? 0 : -1, "repaired");
     };
@@ -1294,15 +1392,17 @@ static void runRepairs(const std::string &shape, uint64_t i, Ctx &c)
         Verdict vf = judge(f.g, false);
         if (vf.expect == EX_TRUE) continue; // the fault is invisible to the root: nothing to repair
         c.count("repaired_faults");
-        for (int variant = 0; variant < 3; ++variant) {
+        for (int variant = 0; variant < 4; ++variant) {
             for (int fresh = 0; fresh < 2; ++fresh) {
-                bool fb = ((k + variant + fresh) & 1) != 0;
-                repairSequence(c, g, v, f, Mode {true, true}, variant, fresh, fb, false);
-                c.count("repair_sequences");
-                if (!f.diskOnly) {
-                    repairSequence(c, g, v, f, Mode {false, true}, variant, fresh, !fb, false);
+                for (int keep = 0; keep < (variant == 0 ? 1 : 2); ++keep) {
+                    bool fb = ((k + variant + fresh + keep) & 1) != 0;
+                    repairSequence(c, g, v, f, Mode {true, true}, variant, fresh, fb, false, keep);
                     c.count("repair_sequences");
-                    if (variant == 1 && !fresh) { repairSequence(c, g, v, f, Mode {false, true}, variant, fresh, fb, true); c.count("repair_sequences"); }
+                    if (!f.diskOnly) {
+                        repairSequence(c, g, v, f, Mode {false, true}, variant, fresh, !fb, false, keep);
+                        c.count("repair_sequences");
+                        if (variant == 1 && !fresh && !keep) { repairSequence(c, g, v, f, Mode {false, true}, variant, fresh, fb, true); c.count("repair_sequences"); }
+                    }
                 }
             }
         }
@@ -1413,6 +1513,19 @@ int main(int argc, char **argv)
     S("d3", {1, 1, 0}, {0, 3, 1});
     S("e3", {0, 0, 0}, {1, 3, 1});
     S("k3", {2, 2, 2}, {2, 2, 2}, 4, false, true);
+    // with every encapsulation forest over the components of every file (imports nested under imports / under concrete components)
+    auto N = [](const std::string &name, std::vector<int> nc, std::vector<int> nu) {
+        Shape s;
+        s.name = name;
+        s.nc = nc;
+        s.nu = nu;
+        s.nest = true;
+        addShape(s);
+    };
+    N("n2", {2, 2}, {0, 0});
+    N("r3", {3, 1}, {0, 0});
+    N("n3", {2, 2, 1}, {0, 0, 0});
+    N("m2", {2, 2}, {0, 1});
     std::vector<Family> fs;
     for (auto &kv : g_shapes) {
         std::string n = kv.first;
